@@ -134,6 +134,13 @@ func validateRecordFieldNames(env *Environment, errorSink *validation.ErrorSink)
 				errorSink.Add(validationError(field, "a field or computed field with the name '%s' is already defined on the record '%s'", field.Name, record.Name))
 			}
 
+			// Python and MATLAB name the generated method after the snake_cased name, like the fields
+			generatedName := formatting.ToSnakeCase(field.Name)
+			if other, found := generatedNames[generatedName]; found && other != field.Name {
+				errorSink.Add(validationError(field, "the members '%s' and '%s' of the record '%s' would both be named '%s' in generated code", other, field.Name, record.Name, generatedName))
+			}
+			generatedNames[generatedName] = field.Name
+
 			fields[field.Name] = true
 		}
 	})
@@ -150,6 +157,7 @@ func validateProtocolSequenceNames(env *Environment, errorSink *validation.Error
 		}
 
 		steps := make(map[string]bool)
+		generatedNames := make(map[string]string)
 
 		for _, step := range protocol.Sequence {
 			if !memberNameRegex.MatchString(step.Name) {
@@ -159,6 +167,13 @@ func validateProtocolSequenceNames(env *Environment, errorSink *validation.Error
 			if _, found := steps[step.Name]; found {
 				errorSink.Add(validationError(step, "a sequence step with the name '%s' is already defined on the protocol '%s'", step.Name, protocol.Name))
 			}
+
+			// Python and MATLAB name the generated read and write methods after the snake_cased step name
+			generatedName := formatting.ToSnakeCase(step.Name)
+			if other, found := generatedNames[generatedName]; found && other != step.Name {
+				errorSink.Add(validationError(step, "the steps '%s' and '%s' of the protocol '%s' would both be named '%s' in generated code", other, step.Name, protocol.Name, generatedName))
+			}
+			generatedNames[generatedName] = step.Name
 
 			steps[step.Name] = true
 		}
